@@ -67,6 +67,8 @@ class WriteSingleCoilRequest(ModbusRequest):
         '''
         self.address, value = struct.unpack('>HH', data)
         self.value = (value == ModbusStatus.On)
+        # only 0xFF00 and 0x0000 are legal; execute() rejects the rest
+        self._illegal_value = value not in (ModbusStatus.On, ModbusStatus.Off)
 
     def execute(self, context):
         ''' Run a write coil request against a datastore
@@ -74,8 +76,8 @@ class WriteSingleCoilRequest(ModbusRequest):
         :param context: The datastore to request from
         :returns: The populated response or exception message
         '''
-        #if self.value not in [ModbusStatus.Off, ModbusStatus.On]:
-        #    return self.doException(merror.IllegalValue)
+        if getattr(self, '_illegal_value', False):
+            return self.doException(merror.IllegalValue)
         if not context.validate(self.function_code, self.address, 1):
             return self.doException(merror.IllegalAddress)
 
